@@ -25,7 +25,7 @@ from bandit.core import test_set as b_test_set
 
 LOG = logging.getLogger(__name__)
 NOSEC_COMMENT = re.compile(r"#\s*nosec:?\s*(?P<tests>[^#]+)?#?")
-NOSEC_COMMENT_TESTS = re.compile(r"(?:(B\d+|[a-z\d_]+),?)+", re.IGNORECASE)
+NOSEC_COMMENT_TESTS = re.compile(r"([a-z\d_]+)", re.IGNORECASE)
 PROGRESS_THRESHOLD = 50
 
 
